@@ -11,8 +11,8 @@
 #include <unistd.h>
 
 // ======================================================================= C10 =
-enum Plan { P_NONE, P_ABORT, P_ERROR, P_TIMEOUT, P_TOOMANY_CONT, P_TOOMANY_ABORT, P_NR_RESUME, P_NR_ABANDON, P_NPLANS };
-static const char* PLAN_NAMES[] = {"none", "abort", "error", "timeout", "toomany-continue", "toomany-abort", "notready-resume", "notready-abandon"};
+enum Plan { P_NONE, P_ABORT, P_ERROR, P_TIMEOUT, P_TOOMANY_CONT, P_TOOMANY_ABORT, P_NR_RESUME, P_NR_ABANDON, P_MAPFAULT, P_NPLANS };
+static const char* PLAN_NAMES[] = {"none", "abort", "error", "timeout", "toomany-continue", "toomany-abort", "notready-resume", "notready-abandon", "file-truncated-during-evaluation"};
 enum BufKind { B_TEXT, B_PE, B_ELF, B_EMPTY, B_MANY, B_FIBER, B_TEXT2, B_GAPCUT, B_GAP2, B_GAP8, B_NKINDS };
 static const char* BUF_NAMES[] = {"text", "pe", "elf", "empty", "many", "fiberbomb", "text2", "gap-cut-short", "gap-of-2", "gap-of-8"};
 struct Op { int buf; int plan; int k; int entry; int flags; int mdata; };   // entry: 0 mem, 1 file, 2 blocks(2 parts), 3 process memory of a sleeping child
@@ -24,6 +24,7 @@ static const char* C10_EXTRA =
   "rule many_bystander { strings: $x = \"bystander\" condition: $x }\n"
   "rule refibers { strings: $r = /([a-z0-9_-]{1,32}\\.?){1,16}@example\\.com/ condition: $r }\n"
   "rule gap48 { strings: $g = /gapx.{4,8}wxyz/ $h = /gapy[0-9]{2,5}z/ condition: any of them }\n"
+  "rule late_read { condition: filesize > 8192 and uint8(8192) == 0x7a and uint8(filesize - 1) == 0x7a }\n"
   "rule not_many { strings: $a = \"ab\" condition: not $a }\n"
   "rule zero_many { strings: $a = \"ab\" $x = \"bystander\" condition: #a == 0 and $x }\n";
 
@@ -63,14 +64,20 @@ static H10 gen_h10(Rng& rng) {
   int n = longrun ? 260 : (int) rng.range(3, 12);
   for (int i = 0; i < n; i++) {
     if (longrun) { static const int LR[] = {B_FIBER, B_GAPCUT, B_GAP2, B_TEXT2, B_GAP8, B_GAPCUT, B_TEXT, B_GAP8}; Op o; o.buf = LR[rng.below(8)]; o.plan = P_NONE; o.k = 0; o.entry = 0; o.flags = 3; o.mdata = 0; h.ops.push_back(o); continue; }
-    Op o; o.buf = (int) rng.below(B_NKINDS); o.plan = rng.chance(2, 5) ? P_NONE : (int) rng.below(P_NPLANS);
+    Op o; o.buf = (int) rng.below(B_NKINDS); o.plan = rng.chance(2, 5) ? P_NONE : (int) rng.below(P_MAPFAULT);   // P_MAPFAULT: only in its own family, below
     o.k = (int) rng.below(40); o.entry = (int) rng.below(3); o.flags = (i > 0 && rng.chance(3, 4)) ? h.ops[i - 1].flags : (int) rng.below(4); o.mdata = (int) rng.below(3);
     if (o.plan == P_NR_RESUME || o.plan == P_NR_ABANDON) o.entry = 2;
-    else if (rng.chance(1, 14) && o.plan != P_TOOMANY_CONT && o.plan != P_TOOMANY_ABORT) { o.entry = 3; if (o.plan == P_TIMEOUT) o.plan = P_ERROR; }
+    else if (rng.chance(1, 14) && o.plan != P_TOOMANY_CONT && o.plan != P_TOOMANY_ABORT && o.plan != P_MAPFAULT) { o.entry = 3; if (o.plan == P_TIMEOUT) o.plan = P_ERROR; }
     h.ops.push_back(o);
   }
+  // one history in 16 has one scan of a mapped file that is cut short while its condition is being evaluated (after the
+  // last module was loaded): a real SIGBUS inside yara's try/catch; what the NEXT scans report is what matters.
+  // These histories run in a forked child: on the unchanged tree they end in stale module data and crashes.
+  if (!stringless && !longrun && rng.chance(1, 16) && h.ops.size() >= 2) { Op& o = h.ops[rng.below(h.ops.size() - 1)]; o.plan = P_MAPFAULT; o.entry = 1; if (o.buf == B_EMPTY) o.buf = B_TEXT2; }
   return h;
 }
+static bool has_mapfault(const H10& h) { for (auto& o : h.ops) if (o.plan == P_MAPFAULT) return true; return false; }
+static int count_imports(const H10& h) { std::set<std::string> mods; for (auto& src : h.spec.sources) { size_t p = 0; while ((p = src.second.find("import \"", p)) != std::string::npos) { size_t e = src.second.find('"', p + 8); mods.insert(src.second.substr(p + 8, e - p - 8)); p = e; } } return (int) mods.size(); }
 
 struct ScanOut { std::string trace; int rc = 0; int64_t clock_reads = 0; bool fired = false; };
 
@@ -113,7 +120,14 @@ static ScanOut exec_op(YR_SCANNER* sc, const H10& h, const Op& o, bool reference
   if (o.plan == P_TIMEOUT) { g_clock.jump_at_read = 1 + o.k % 7; g_clock.jump_ns = 2000LL * 1000000000LL; }
   int rc;
   if (o.entry == 1) {
-    std::string path = tmp_dir() + "/c10.scan"; write_file(path, buf);
+    std::string path = tmp_dir() + "/c10.scan";
+    if (o.plan == P_MAPFAULT) {
+      // the mapped file loses everything behind its first page while the condition is being evaluated (at the first
+      // message of the evaluation phase): the read of `late_read` takes a real SIGBUS inside yara's try/catch
+      std::string d = buf; if (d.size() < 3 * 4096) d.resize(3 * 4096, 'z'); write_file(path, d);
+      static std::string t_path; t_path = path; static int t_left; t_left = count_imports(h);
+      rec.hook = [](Recorder&, YR_SCAN_CONTEXT*, int msg, void*) { if (msg == CALLBACK_MSG_MODULE_IMPORTED && --t_left == 0) { if (truncate(t_path.c_str(), 4096)) {} } return -1; };
+    } else write_file(path, buf);
     rc = yr_scanner_scan_file(sc, path.c_str());
   } else if (o.entry == 3) {
     rc = yr_scanner_scan_proc(sc, proc_child());
@@ -128,7 +142,7 @@ static ScanOut exec_op(YR_SCANNER* sc, const H10& h, const Op& o, bool reference
   out.rc = rc; out.trace = rec.text; out.clock_reads = g_clock.reads;
   // what the API reports as the culprit of a failed scan is part of the observable result
   if (rc != ERROR_SUCCESS && rc != ERROR_BLOCK_NOT_READY) { YR_STRING* es = yr_scanner_last_error_string(sc); YR_RULE* er = yr_scanner_last_error_rule(sc); out.trace += std::string("last_error_string=") + (es ? es->identifier : "-") + " last_error_rule=" + (er ? er->identifier : "-") + "\n"; }
-  if (rc == ERROR_SCAN_TIMEOUT || rec.too_many || (rec.reply_at >= 0 && rec.reply_at < rec.nmsgs)) out.fired = true;
+  if (rc == ERROR_SCAN_TIMEOUT || rec.too_many || (rec.reply_at >= 0 && rec.reply_at < rec.nmsgs) || (o.plan == P_MAPFAULT && rc == ERROR_COULD_NOT_MAP_FILE)) out.fired = true;
   sim_clock_reset();
   return out;
 }
@@ -396,7 +410,7 @@ static H20 gen_h20(Rng& rng) {
     Op20 o; int r = (int) rng.below(20); o.who = 0; o.id = 0; o.type = 'i';
     if (r < 5) { o.kind = 1; bool bad_id = rng.chance(1, 8); o.id = bad_id ? -1 : (int) rng.below(NIDS); bool wrong = rng.chance(1, 6); o.type = (o.id >= 0 && !wrong) ? ID_TYPES[o.id] : "ibfs"[rng.below(4)]; o.v = gen_val_for(rng, o.id, o.type, true); }
     else if (r < 8) { o.kind = 2; if (scanners >= 4) { o.kind = 5; } else scanners++; }
-    else if (r < 13) { if (!scanners) { o.kind = 2; scanners++; } else { o.kind = 3; o.who = (int) rng.below(scanners); bool bad_id = rng.chance(1, 8); o.id = bad_id ? -1 : (int) rng.below(NIDS); bool wrong = rng.chance(1, 6); o.type = (o.id >= 0 && !wrong) ? ID_TYPES[o.id] : "ibfs"[rng.below(4)]; o.v = gen_val_for(rng, o.id, o.type, false); } }
+    else if (r < 13) { if (!scanners) { o.kind = 2; scanners++; } else { o.kind = 3; o.who = (int) rng.below(scanners); bool bad_id = rng.chance(1, 8); o.id = bad_id ? -1 : (int) rng.below(NIDS); bool wrong = rng.chance(1, 6); o.type = (o.id >= 0 && !wrong) ? ID_TYPES[o.id] : "ibfs"[rng.below(4)]; o.v = gen_val_for(rng, o.id, o.type, true); } }
     else if (r < 17) { if (!scanners) { o.kind = 5; } else { o.kind = 4; o.who = (int) rng.below(scanners); } }
     else if (r < 18) o.kind = 5;
     else if (r < 19) o.kind = 6;
@@ -472,8 +486,10 @@ static Diff20 run_h20(const H20& h, Stats* st) {
     } else if (o.kind == 3 && o.who < (int) scs.size()) {
       Env& e = S[o.who];
       auto cls = [](char t) { return t == 'b' ? 'i' : t; };
-      int expect = !e.count(id) ? ERROR_INVALID_ARGUMENT : cls(e[id].type) != cls(o.type) ? ERROR_INVALID_EXTERNAL_VARIABLE_TYPE : ERROR_SUCCESS;
+      // a NULL string value is rejected like at the other two levels (whichever of the applicable errors comes first)
+      int expect = !e.count(id) ? ERROR_INVALID_ARGUMENT : cls(e[id].type) != cls(o.type) ? ERROR_INVALID_EXTERNAL_VARIABLE_TYPE : (o.type == 's' && o.v.null_s) ? ERROR_INVALID_ARGUMENT : ERROR_SUCCESS;
       int rc = api_define(2, scs[o.who], id, o.type, o.v);
+      if (o.type == 's' && o.v.null_s && (rc == ERROR_INVALID_ARGUMENT || rc == ERROR_INVALID_EXTERNAL_VARIABLE_TYPE) && expect != ERROR_SUCCESS) rc = expect;
       if (st) { st->c["ops.scanner_define"]++; if (expect != ERROR_SUCCESS) st->c[std::string("faults_fired.invalid_define.") + yr_error_name(expect)]++; }
       if (rc != expect) fail(opi, "define-rc", std::string("scanner|") + yr_error_name(expect) + "->" + yr_error_name(rc), std::string("yr_scanner_define(") + id + ") returned " + yr_error_name(rc) + ", expected " + yr_error_name(expect));
       else if (rc == ERROR_SUCCESS) model_set(e, id, o.type, o.v);
@@ -538,6 +554,14 @@ int main(int argc, char** argv) {
     if (c["mode"].str() == "c10") {
       H10 h; if (c.has("ops")) h = h10_from(c); else { Rng rng(sim_run_seed((uint64_t) c["seed"].num(), (uint64_t) c["run"].num())); h = gen_h10(rng); }
       CompileResult cr = compile_rules(h.spec); if (!cr.rules) { fprintf(stderr, "replay: rules do not compile\n"); return 2; }
+      if (has_mapfault(h)) {
+        IsoResult iso = sim_isolate([&] { Diff10 d = run_h10(h, cr.rules, nullptr); if (d.op >= 0) iso_emit(std::to_string(d.op) + "\x01" + d.what + "\x01" + d.tag + "\x01" + d.detail.substr(0, 1500) + "\n"); else iso_emit("ok\n"); }, 120);
+        std::string what, tag, detail; int op = -1;
+        if (iso.kind != 0) { what = "crash"; tag = sim_crash_signature(iso).substr(0, 80); detail = iso.err.substr(0, 1500); op = (int) h.ops.size() - 1; }
+        else if (iso.out.rfind("ok", 0) != 0) { std::vector<std::string> f; size_t p = 0; std::string ln = iso.out.substr(0, iso.out.find('\n')); while (f.size() < 3) { size_t e = ln.find('\x01', p); f.push_back(ln.substr(p, e - p)); p = e + 1; } op = atoi(f[0].c_str()); what = f[1]; tag = f[2]; detail = ln.substr(p); }
+        if (op >= 0) { H10 t = h; t.ops.resize(std::min<size_t>(h.ops.size(), (size_t) op + 1)); emit_violation("C10", what, "history|" + what + "|" + tag + "|file-truncated-during-evaluation", detail + " [" + shape10(t) + "]", c); }
+        yr_rules_destroy(cr.rules); J done = J::obj(); done.set("t", "replayed"); emit_line(done); return 0;
+      }
       Diff10 d = run_h10(h, cr.rules, nullptr);
       if (d.op >= 0) { H10 t = h; t.ops.resize(d.op + 1); emit_violation("C10", d.what, "history|" + d.what + "|" + d.tag + "|" + triggers10(t), d.detail + " [" + shape10(t) + "]", c); }
       yr_rules_destroy(cr.rules);
@@ -565,6 +589,20 @@ int main(int argc, char** argv) {
       H10 h = gen_h10(rng);
       CompileResult cr = compile_rules(h.spec);
       if (!cr.rules) { st.c["case_did_not_compile"]++; J e = J::obj(); e.set("t", "end"); emit_line(e); continue; }
+      if (has_mapfault(h)) {
+        // whole history in a child; no shrinking (each attempt would need its own child), the history is cut after the failing scan
+        IsoResult iso = sim_isolate([&] { Diff10 d = run_h10(h, cr.rules, nullptr); if (d.op >= 0) iso_emit(std::to_string(d.op) + "\x01" + d.what + "\x01" + d.tag + "\x01" + d.detail.substr(0, 1500) + "\n"); else iso_emit("ok\n"); }, 120);
+        st.runs++; st.c["scans"] += h.ops.size(); st.c["faults_fired.mapped_file_truncated_during_evaluation"]++;
+        { Hash64 hh; hh.add(shape10(h)); hh.add(h.spec.sources[0].second); st.hash(hh.h); }
+        std::string what, tag, detail; int op = -1;
+        if (iso.kind != 0) { what = "crash"; tag = sim_crash_signature(iso).substr(0, 80); detail = iso.err.substr(0, 1500); op = (int) h.ops.size() - 1; }
+        else if (iso.out.rfind("ok", 0) != 0) { std::vector<std::string> f; size_t p = 0; std::string ln = iso.out.substr(0, iso.out.find('\n')); while (f.size() < 3) { size_t e = ln.find('\x01', p); f.push_back(ln.substr(p, e - p)); p = e + 1; } op = atoi(f[0].c_str()); what = f[1]; tag = f[2]; detail = ln.substr(p); }
+        if (op >= 0) { st.c["viol." + what]++; H10 t = h; t.ops.resize(std::min<size_t>(h.ops.size(), (size_t) op + 1)); std::string sig = "history|" + what + "|" + tag + "|file-truncated-during-evaluation"; if (reported.insert(sig).second) emit_violation("C10", what, sig, detail + " [" + shape10(t) + "]", h10_json(t)); }
+        yr_rules_destroy(cr.rules);
+        { J e = J::obj(); e.set("t", "end"); emit_line(e); }
+        if (st.hashes.size() > 2000) st.flush(false);
+        continue;
+      }
       Diff10 d = run_h10(h, cr.rules, &st);
       st.runs++; st.c["scans"] += h.ops.size();
       { Hash64 hh; hh.add(shape10(h)); hh.add(h.spec.sources[0].second); st.hash(hh.h); }
